@@ -544,7 +544,8 @@ def _update_futures_in_input(args: tuple, kwargs: dict):
         else:
             return arg
 
-    args = [get_result(arg=arg) for arg in args]
+    # the positional arguments stay a tuple, as they are when the call does not pass the dependency resolution
+    args = tuple(get_result(arg=arg) for arg in args)
     kwargs = {key: get_result(arg=value) for key, value in kwargs.items()}
     return args, kwargs
 
